@@ -146,6 +146,73 @@ def c20_cli_priority(rep, tier, seed):
                               dict(obligation=name, argv=argv, priority=str(prio), how_to_replay="ffcx.main.main(argv) with get_options patched to capture its argument"))
 
 
+def c20_main_named_objects(rep, tier, seed):
+    """ffcx.main.main on UFL files (written to a temporary directory): every named form and expression of the file is
+    declared in <stem>.h and defined in <stem>.c under its form_<stem>_<name> / expression_<stem>_<name> alias, including
+    forms that are structurally equal to another form of the file, a form listed twice under two names, and unnamed
+    position-indexed forms.  Exhaustive over the listed files (finite)."""
+    import re
+    import tempfile
+
+    import ffcx.main as M
+
+    files = {
+        "equalforms": """
+import basix.ufl
+from ufl import Coefficient, FunctionSpace, Mesh, TestFunction, TrialFunction, dx, grad, inner
+mesh = Mesh(basix.ufl.element("Lagrange", "triangle", 1, shape=(2,)))
+V = FunctionSpace(mesh, basix.ufl.element("Lagrange", "triangle", 1))
+u, v, f = TrialFunction(V), TestFunction(V), Coefficient(V)
+a = inner(grad(u), grad(v)) * dx
+P = inner(grad(u), grad(v)) * dx
+L = f * v * dx
+M = f * dx
+forms = [a, L, P, M]
+""",
+        "defaults": """
+import basix.ufl
+import numpy as np
+from ufl import Coefficient, FunctionSpace, Mesh, TestFunction, TrialFunction, dx, grad, inner
+mesh = Mesh(basix.ufl.element("Lagrange", "interval", 1, shape=(1,)))
+V = FunctionSpace(mesh, basix.ufl.element("Lagrange", "interval", 2))
+u, v, f = TrialFunction(V), TestFunction(V), Coefficient(V)
+a = u * v * dx
+L = f * v * dx
+e1 = grad(f)
+expressions = [(e1, np.array([[0.25], [0.5]]))]
+""",
+    }
+    expect = {"equalforms": (["a", "L", "P", "M"], []), "defaults": (["a", "L"], ["e1"])}
+    with tempfile.TemporaryDirectory() as d:
+        for stem, text in files.items():
+            path = os.path.join(d, stem + ".py")
+            with open(path, "w") as fh:
+                fh.write(text)
+            name = f"ffcx {stem}.py: every named object is declared in the header and defined in the source under its alias"
+            try:
+                rc = M.main([path, "-d", d])
+                hdr = open(os.path.join(d, stem + ".h")).read()
+                src = open(os.path.join(d, stem + ".c")).read()
+            except Exception as e:  # noqa: BLE001
+                rep.violation(f"main:{stem}", name + f" fails: {type(e).__name__}: {e}", dict(obligation=name, file=text))
+                continue
+            forms, exprs = expect[stem]
+            missing = []
+            for n in forms:
+                alias = f"form_{stem}_{n}"
+                if not re.search(rf"extern\s+ufcx_form\s*\*\s*{alias}\s*;", hdr) or not re.search(rf"ufcx_form\s*\*\s*{alias}\s*=\s*&\s*\w+\s*;", src):
+                    missing.append(alias)
+            for n in exprs:
+                alias = f"expression_{stem}_{n}"
+                if not re.search(rf"extern\s+ufcx_expression\s*\*\s*{alias}\s*;", hdr) or not re.search(rf"ufcx_expression\s*\*\s*{alias}\s*=\s*&\s*\w+\s*;", src):
+                    missing.append(alias)
+            if rc == 0 and not missing:
+                rep.ob(name, "proved", "exhaustive-finite", "exhaustive")
+            else:
+                rep.violation(f"main:{stem}", name + f" fails: exit {rc}, missing aliases {missing}",
+                              dict(obligation=name, missing=missing, file=text, how_to_replay="ffcx.main.main([file, '-d', dir]) on the file text in this replay"))
+
+
 def c20_same_entry(rep, tier, seed):
     """The CLI and the JIT both generate code through compiler.compile_ufl_objects with the merged options."""
     import ast
@@ -579,11 +646,11 @@ def c12_replay(rep, tier, seed, new_sites=()):
         jobs = [("demo/HyperElasticity.py", {}), ("demo/FacetIntegrals.py", {}), ("demo/CellGeometry.py", {}),
                 ("corpus/tp_sumfact.py", {"sum_factorization": True}), ("corpus/mixed_enriched_symmetric.py", {}),
                 ("corpus/vertex_ridge.py", {}), ("corpus/expressions.py", {}), ("corpus/subdomains.py", {}),
-                ("corpus/macro_iso.py", {})]
-        variants = [(1 + seed % 5, 0), (0, 2)]
+                ("corpus/macro_iso.py", {}), ("corpus/complex_ops.py", {"scalar_type": "complex128"})]
+        variants = [(1 + seed % 5, 0), (0, 2), (0, 3)]
     else:
         jobs = C.demo_files() + C.corpus_files()
-        variants = [(1, 0), (2 + seed % 7, 0), (0, 1), (0, 2)]
+        variants = [(1, 0), (2 + seed % 7, 0), (0, 1), (0, 2), (0, 3)]
 
     def one(j):
         rel, opts = j
